@@ -94,8 +94,20 @@ fn gen_where(depth: u32, feats: &mut Vec<&'static str>) -> String {
         0 => format!("metric_name = '{}'", ["cpu", "mem", "disk"][sim::w(3) as usize]),
         1 => format!("metric_name <> '{}'", ["cpu", "mem"][sim::w(2) as usize]),
         2 => {
+            // a nullable string column under every comparison operator, in either operand order: a NULL satisfies none
             feats.push("nullable-column");
-            format!("host = '{}'", ["a", "b", "c"][sim::w(3) as usize])
+            let op = ["=", "=", "<>", "<", "<=", ">", ">="][sim::w(7) as usize];
+            let v = ["a", "b", "c"][sim::w(3) as usize];
+            if op != "=" {
+                feats.push("nullable-column-inequality");
+            }
+            if rev {
+                feats.push("reversed-operands");
+                let m = match op { "<" => ">", "<=" => ">=", ">" => "<", ">=" => "<=", o => o };
+                format!("'{v}' {m} host")
+            } else {
+                format!("host {op} '{v}'")
+            }
         }
         3 => {
             let op = ["<", "<=", ">", ">=", "=", "<>"][sim::w(6) as usize];
